@@ -866,6 +866,7 @@ class FuncTranslator:
                 s.emit_inst(b, I, body)
         # header
         ps = ', '.join('%s %s' % (em.ctype(t), cx.lname(nm)) for t, nm in f.params) or 'void'
+        if f.va and f.params: ps += ', ...'   # defined variadic function that ignores its variadic part (e.g. allocator_traits::_S_destroy(a, p, ...)): match the prototype
         hdr = '%s %s(%s)' % (em.ctype(f.ret), em.cname(f.name, 'g'), ps)
         out = [hdr + ' {']
         for i, (t, nm) in enumerate(f.params):
